@@ -5,6 +5,7 @@ damaged folders at every position must raise."""
 import io
 import os
 import random
+import shutil
 import threading
 
 from vf.core import pz
@@ -99,6 +100,10 @@ def cases(rng, tier):
             folders.append([{"name": "f%d/m%d_%s" % (f, j, "".join(rng.choice("abc") for _ in range(3))), "content": G.content_recipe(rng, max_len=rng.choice([50, 3000, 70000]))} for j in range(k)])
         out.append({"folders": folders, "writer": rng.choice(["py", "ref"]), "chain": rng.choice(["COPY", "LZMA2", "ZSTD", "BZIP2"]), "seed": rng.getrandbits(32),
                     "max_schedules": 60 if tier == "quick" else 400, "mp_runs": 3 if tier == "quick" else 12})
+    # shapes in which two workers can meet in one output path, or the parallel paths differ from the sequential one by construction
+    shapes = ["renamed-collision", "file-vs-dir-prefix", "mp-factory", "mp-large-error", "chdir-after-open"]
+    for i in range(len(shapes) * (1 if tier == "quick" else 6)):
+        out.append({"kind": "special", "shape": shapes[i % len(shapes)], "seed": rng.getrandbits(32), "_timeout": 120})
     return out
 
 
@@ -121,11 +126,132 @@ def _build(case):
     return folders, W.build(members, lay)
 
 
+def _tree_of(out):
+    return {p_: (r_["kind"], r_.get("crc"), len(r_.get("data") or b"")) for p_, r_ in pz.walk_tree(out).items()} if os.path.isdir(out) else {}
+
+
+def _run_special(case):
+    import py7zr
+
+    shape = case["shape"]
+    r = random.Random(case["seed"])
+    viol = []
+    obs = {k: 0 for k in REQUIRED_OBS}
+    obs["special_shapes"] = 1
+    cp = [{"id": py7zr.FILTER_COPY}]
+    with pz.scratch("vf-c13s-", big=True) as d:
+        path = os.path.join(d, "t.7z")
+
+        def outcome(src, out, **kw):
+            try:
+                with py7zr.SevenZipFile(src, "r", **kw) as z:
+                    z.extractall(out)
+                return ("ok", _tree_of(out))
+            except Exception as e:
+                return ("raised " + type(e).__name__, _tree_of(out))
+
+        if shape in ("renamed-collision", "file-vs-dir-prefix"):
+            big = r.randbytes(1 << 20) * 16
+            if shape == "renamed-collision":
+                sessions = [[("a", b"1" * 100)], [("a", big)], [("a_0", b"3" * 100)]]
+            else:
+                sessions = [[("0pad", big), ("a", b"file")], [("a/b", b"inside")]]
+            for i, mem in enumerate(sessions):
+                with py7zr.SevenZipFile(path, "w" if i == 0 else "a", filters=cp) as z:
+                    for n_, b_ in mem:
+                        z._writestr(b_, n_) if n_ == "a/b" else z.writestr(b_, n_)
+            data = open(path, "rb").read()
+            want = outcome(io.BytesIO(data), os.path.join(d, "seq"))
+            seen = {}
+            for i in range(6):
+                for mp in (False, True):
+                    got = outcome(path, os.path.join(d, "p%d%d" % (i, mp)), mp=mp)
+                    obs["process_runs" if mp else "controlled_schedules"] += 1
+                    k = json_key(got)
+                    seen[k] = seen.get(k, 0) + 1
+                    shutil.rmtree(os.path.join(d, "p%d%d" % (i, mp)), ignore_errors=True)
+            if set(seen) != {json_key(want)}:
+                viol.append({"key": "output-depends-on-schedule/%s" % shape, "what": "%s: sequential extraction gives %s; by name (threads and processes, 12 runs): %s" % (
+                    shape, json_key(want)[:160], {k[:120]: v for k, v in seen.items()})})
+        elif shape == "mp-factory":
+            for i in range(3):
+                with py7zr.SevenZipFile(path, "w" if i == 0 else "a", filters=cp) as z:
+                    z.writestr(b"member-%d" % i * 20, "f%d.txt" % i)
+            res = {}
+            for mode, kw, src in (("sequential", {}, io.BytesIO(open(path, "rb").read())), ("threads", {}, path), ("processes", {"mp": True}, path)):
+                fac = pz.CollectFactory()
+                with py7zr.SevenZipFile(src, "r", **kw) as z:
+                    z.extractall(factory=fac)
+                res[mode] = {k: pz.crc(v) for k, v in fac.as_dict().items()}
+                obs["process_runs"] += 1 if mode == "processes" else 0
+            if not (res["sequential"] == res["threads"] == res["processes"]):
+                viol.append({"key": "factory-output-differs/processes", "what": "extractall(factory=...) delivers %r sequentially, %r with threads, %r with mp=True" % (
+                    sorted(res["sequential"]), sorted(res["threads"]), sorted(res["processes"]))})
+        elif shape == "mp-large-error":
+            # a worker's error that does not fit a pipe buffer: a CrcError carrying a member name of 65000 characters
+            long_name = "中/../" * 13000 + "b.txt"
+            with py7zr.SevenZipFile(path, "w", filters=cp) as z:
+                z.writestr(b"first folder" * 10, "a.txt")
+            with py7zr.SevenZipFile(path, "a", filters=cp) as z:
+                z._writestr(b"second folder" * 10, long_name)
+            data = bytearray(open(path, "rb").read())
+            data[32 + 120 + 40] ^= 0x55
+            with open(path, "wb") as f:
+                f.write(data)
+            res = {}
+            for mode, kw, src in (("sequential", {}, io.BytesIO(bytes(data))), ("threads", {}, path), ("processes", {"mp": True}, path)):
+                try:
+                    with py7zr.SevenZipFile(src, "r", **kw) as z:
+                        z.extractall(os.path.join(d, "o-" + mode))
+                    res[mode] = "returned"
+                except Exception as e:
+                    res[mode] = "raised " + type(e).__name__
+                obs["damaged_runs"] += 1
+            if len(set(res.values())) != 1 or res["sequential"] == "returned":
+                viol.append({"key": "worker-error-differs/large-error", "what": "damaged folder whose error carries a 65000-character name: %r" % res})
+        else:  # chdir-after-open
+            for i in range(3):
+                with py7zr.SevenZipFile(path, "w" if i == 0 else "a", filters=cp) as z:
+                    z.writestr(b"member-%d" % i * 20, "f%d.txt" % i)
+            dest = os.path.join(d, "dest")
+            os.mkdir(dest)
+            cwd = os.getcwd()
+            res = {}
+            try:
+                for mode, kw in (("threads", {}), ("processes", {"mp": True})):
+                    os.chdir(d)
+                    try:
+                        z = py7zr.SevenZipFile("t.7z", "r", **kw)
+                        os.chdir(dest)
+                        z.extractall(mode)
+                        z.close()
+                        res[mode] = sorted(_tree_of(os.path.join(dest, mode)))
+                    except Exception as e:
+                        res[mode] = "raised " + type(e).__name__
+            finally:
+                os.chdir(cwd)
+            want = ["f0.txt", "f1.txt", "f2.txt"]
+            if any(v != want for v in res.values()):
+                viol.append({"key": "relative-name-after-chdir", "what": "archive opened by a relative name, working directory changed before extractall(): %r (a stream-opened or single-folder archive extracts)" % res})
+    cell = "special|" + shape
+    if viol:
+        return K.result("violated", violations=viol, cells=[cell], obs=obs, sample={"shape": shape})
+    return K.result("held", cells=[cell], obs=obs, sample={"shape": shape})
+
+
+def json_key(x):
+    import json
+
+    return json.dumps(x, sort_keys=True, default=str)
+
+
 def run_case(case):
     import py7zr
 
     from vf.core import worker as WK
 
+    if case.get("kind") == "special":
+        return _run_special(case)
     viol = []
     obs = {k: 0 for k in REQUIRED_OBS}
     obs["random_schedules"] = 0
